@@ -218,15 +218,32 @@ def api(cp):
         bounds="one or two text entries, the first 'a'+chr(cp)+'b' with a symbolic code point",
         what="footnote/source text given as a list is joined with \\line between the entries; every character inside an entry - "
              "Unicode line and paragraph separators included - is kept as it is"))
+    # O8: a text that consists of the character alone (no surrounding letters), through the complete text emitter
+    obs.append(Ob(
+        oid="O8.whole_text", sig="cp: int, conv: bool, meth: int", pre=CP_PRE + CONV_PRE + ["0 <= meth <= 2"], templates=True, timeout=T,
+        header=HDR, stubs=["TextContent -> model_construct (no pydantic validation)"],
+        body=r"""
+    holes_reset()
+    tc = TextContent.model_construct(text=chr(cp), font=1, size=9, format=None, color=None, background_color=None, justification="l",
+                                     indent_first=0, indent_left=0, indent_right=0, space=1, space_before=15, space_after=15,
+                                     convert=conv, hyphenation=True)
+    out = TextContent._as_rtf(tc, method=("plain" if meth == 0 else ("paragraph" if meth == 1 else "cell")))
+    i = out.index("{\\f0 ")
+    j = out.index("}", i)
+    return decodes_to(out[i + 5:j], [cp])
+""",
+        funcs=["rtflite.row:TextContent._as_rtf", "rtflite.row:TextContent._convert_special_chars"],
+        bounds="the whole text is ONE symbolic code point (as in O1), emitted by _as_rtf as plain run | paragraph | cell",
+        what="a text consisting of a single character - digits of any script included - is read back intact from every emitter form"))
     # boundary twins: the same emitters with cp chosen (symbolically) among the arithmetic boundaries of the escape rule.  They
     # stay decidable when a change routes a position through code CrossHair can only follow with a realised character
     # (bytes codecs, C helpers), where the one-symbolic-code-point obligation above degrades to INCONCLUSIVE.
     import copy
     import dataclasses
-    BOUNDARY = [0x20, 0x7E, 0xA0, 0xFF, 0x100, 0x7FF, 0x800, 0x2028, 0x2029, 0x7FFF, 0x8000, 0x8001, 0xD7FF, 0xE000, 0xFFFD, 0xFFFF,
-                0x10000, 0x10001, 0x103FF, 0x10400, 0x1F600, 0x10FFFF]
+    BOUNDARY = [0x20, 0x7E, 0xA0, 0xAD, 0xFF, 0x100, 0x663, 0x7FF, 0x800, 0x200D, 0x2028, 0x2029, 0x3000, 0x7FFF, 0x8000, 0x8001, 0xD7FF,
+                0xE000, 0xFF11, 0xFFFD, 0xFFFF, 0x10000, 0x10001, 0x103FF, 0x10400, 0x1D7CE, 0x1F600, 0x10FFFF]
     for ob in list(obs):
-        if ob.oid in ("O3.subline_heading", "O4.encode_text_line", "O4.encode_text_paragraph", "O5.cell_encode", "O6.spanning_row", "O7.construct_text"):
+        if ob.oid in ("O3.subline_heading", "O4.encode_text_line", "O4.encode_text_paragraph", "O5.cell_encode", "O6.spanning_row", "O7.construct_text", "O8.whole_text"):
             twin = dataclasses.replace(ob) if dataclasses.is_dataclass(ob) else copy.copy(ob)
             twin.oid = ob.oid + ".boundaries"
             twin.sig = ob.sig.replace("cp: int", "k: int")
@@ -234,8 +251,9 @@ def api(cp):
             twin.header = ob.header + "\nfrom vf.hlib import pick as _pick\nBOUNDARY = %r\n" % (BOUNDARY,)
             twin.body = "\n    cp = _pick(BOUNDARY, k)" + ob.body
             twin.api = False
-            twin.bounds = ob.bounds + "; cp chosen by the solver among %d boundary code points of the escape arithmetic (ASCII/Latin-1/BMP " \
-                                      "edges, U+2028/9, 0x7FFF/0x8000/0x8001, surrogate neighbours, 0xFFFF/0x10000, astral edges)" % len(BOUNDARY)
+            twin.bounds = ob.bounds + ("; cp chosen by the solver among %d boundary code points of the escape arithmetic (ASCII/Latin-1/BMP "
+                                       "edges, soft hyphen / ZWJ / no-break and ideographic space / U+2028/9, non-ASCII digits of three "
+                                       "scripts, 0x7FFF/0x8000/0x8001, surrogate neighbours, 0xFFFF/0x10000, astral edges)" % len(BOUNDARY))
             obs.append(twin)
     meta = {
         "explanation": "CrossHair (z3) executes the real escape kernel and the real emitters that wrap it with ONE "
